@@ -481,6 +481,26 @@ func errTagQueryTooComplex(tagName string) error {
 	return fmt.Errorf("error: cannot attach converter to tag %s because it's query is too complex", tagName)
 }
 
+// referencesTag reports whether one of the tags in from references target, directly or through other tags.
+func (mgr *Manager) referencesTag(from []string, target string) bool {
+	seen := map[string]struct{}{}
+	for len(from) != 0 {
+		tn := from[len(from)-1]
+		from = from[:len(from)-1]
+		if tn == target {
+			return true
+		}
+		if _, ok := seen[tn]; ok {
+			continue
+		}
+		seen[tn] = struct{}{}
+		if t, ok := mgr.tags[tn]; ok {
+			from = append(from, t.referencedTags()...)
+		}
+	}
+	return false
+}
+
 func (t tag) converterNames() []string {
 	converterNames := make([]string, len(t.converters))
 	for i, converter := range t.converters {
@@ -1207,6 +1227,15 @@ func (mgr *Manager) UpdateTag(name string, operation UpdateTagOperation) error {
 				tag.color = info.color
 			}
 			if newTag != nil {
+				// check if all referenced tags exist and don't reference this tag again
+				for _, rtn := range newTag.referencedTags() {
+					if _, ok := mgr.tags[rtn]; !ok {
+						return fmt.Errorf("unknown referenced tag %q", rtn)
+					}
+				}
+				if mgr.referencesTag(newTag.referencedTags(), name) {
+					return errors.New("reference cycles not allowed in tags")
+				}
 				newTag.color = tag.color
 				newTag.converters = tag.converters
 				newTag.referencedBy = tag.referencedBy
